@@ -30,6 +30,9 @@ def check(prog, rep):
     Z.check_derived_stats(prog, rep, m, fs, 'stats[dask]')
     Z.check_global_ids(prog, rep, m, 'stats[dask]')
     Z.check_alignment(prog, rep, m, 'stats', 'stats[dask]')       # the blocks that are paired are the aligned ones
+    from ..sharedrules import check_values_keep_dtype
+    check_values_keep_dtype(prog, rep, 'Z3-dtype', pub, 'stats')
+    rep.floor('Z3-dtype', 1)
     rep.floor('Z1', 1)
     rep.floor('Z2', 1)
     rep.floor('Z3', 1)
